@@ -99,6 +99,8 @@ impl Cluster {
             ),
             CompressionType::None => unreachable!(),
         };
+        #[cfg(jubako_verif)]
+        crate::verif::emit("BuildPlain", self as *const Self as u64, self.data_size.into_u64(), 0);
         *cluster_reader = ClusterReader::Plain(decompress_reader);
         Ok(())
     }
